@@ -41,6 +41,8 @@ START = [
     ("mixed-names", [[{"x1"}, {"2"}], [{"2"}, {"x1", "3"}]]),
     ("negative-ints", [[{-1}, {0, 1}], [{1}, {-1}], [{0}]]),
     ("negative-int-with-digit-string", [[{-3}, {"2"}], [{"2"}, {-3, "7"}]]),
+    # names python's int() would read although they are not made of digits: they are names
+    ("signed-and-underscored-names", [[{"+5"}, {"5"}], [{"1_2"}, {"-1", "5"}], [{" 7"}, {"+5"}]]),
 ]
 
 
@@ -247,7 +249,8 @@ def check_flags_many(res: Result, proj: Project, rule: str, max_m: int = 26):
     w = World(proj)
     bad = None
     perms = [[{1}, {2}, {3}], [{2}, {3}, {1}], [{3}, {1}, {2}], [{1}, {3}, {2}]]
-    for m in range(1, max_m + 1):
+    # (beyond the small numbers: counts above 256 - python keeps one object per small integer only )
+    for m in list(range(1, max_m + 1)) + [100, 257, 300]:
         for variant in ("complete-permutations", "complete-with-ties", "one-element-missing-once"):
             raws = [[set(b) for b in perms[k % len(perms)]] for k in range(m)]
             if variant == "complete-with-ties":
@@ -265,7 +268,7 @@ def check_flags_many(res: Result, proj: Project, rule: str, max_m: int = 26):
             if got != want:
                 bad = bad or (m, variant, f"(is_complete, without_ties, nb_rankings, nb_elements) = {got}, expected {want}")
     res.check(bad is None, rule, f"Dataset:flags-for-1-to-{max_m}-rankings", proj.method(w.D, "_analyse_rankings").loc(),
-              ok_detail=f"flags and sizes correct for every number of rankings from 1 to {max_m} (3 variants each)",
+              ok_detail=f"flags and sizes correct for every number of rankings from 1 to {max_m} and for 100, 257, 300 (3 variants each)",
               bad_detail=f"{bad[0]} rankings ({bad[1]}): {bad[2]}" if bad else "")
 
 
